@@ -83,6 +83,7 @@ func TestVerifC12_groupscalars(t *testing.T) {
 		}
 		ia := bf.IntAlphabet(N, 64, 16, c.name)
 		red := f.Prepare("e", bf.Thin(ia, r.Pick(90, 400)))
+		f.CheckAccepted(r, "UnmarshalBinary", red)
 		r.Set(c.name+".elements", red.Len())
 		bin := []bf.BinOp{
 			{Name: "Add", Do: func(z, x, y bf.Elem) { e(z).Add(e(x), e(y)) }, Ref: bf.RefAdd, Canon: true},
